@@ -1,12 +1,14 @@
 SPECIFICATION Spec
 CONSTANTS
-  ClassLevelPropagate = TRUE
+  ClassLevelPropagate = FALSE
   ParamResolve = FALSE
+  InitRestated = FALSE
   OriginFromSuper = FALSE
   AllowModifyBusy = FALSE
-  Parent <- Topo4
+  Parent <- Chain3
   Mode = "dyn"
   QSels = {{}}
+  Vias = {"api"}
   InstKeys = {1}
   WithModify = TRUE
   AllFlags = FALSE
